@@ -2028,6 +2028,7 @@ CK_RV SoftHSM::C_FindObjectsInit(CK_SESSION_HANDLE hSession, CK_ATTRIBUTE_PTR pT
 							if (!token->decrypt(attr.getByteStringValue(), bsAttrValue))
 							{
 								delete findOp;
+								session->resetOp();
 								return CKR_GENERAL_ERROR;
 							}
 						}
@@ -2065,6 +2066,7 @@ CK_RV SoftHSM::C_FindObjectsInit(CK_SESSION_HANDLE hSession, CK_ATTRIBUTE_PTR pT
 			if (hObject == CK_INVALID_HANDLE)
 			{
 				delete findOp;
+				session->resetOp();
 				return CKR_GENERAL_ERROR;
 			}
 			handles.insert(hObject);
